@@ -634,6 +634,12 @@ func (x *Exec) unop(st *State, v *ssa.UnOp) Value {
 		x.nilCheck(st, p, v, "load")
 		r := x.load(st, p)
 		if g, ok := v.X.(*ssa.Global); ok {
+			if fv, isFunc := r.(FuncV); isFunc && fv.Fn == nil && g.Pkg != nil && strings.HasPrefix(g.Pkg.Pkg.Path(), modPath) &&
+				!x.prog.globalMutated(g) && !x.prog.globInit[g] {
+				// a package-level function variable that no non-test code ever assigns (test hook) is nil
+				r = FuncV{ID: b.Int(0)}
+				x.notes["package-level function variables that only tests assign are nil"] = true
+			}
 			if iv, isIface := r.(IfaceV); isIface && x.globalErrNonNil(g) {
 				st.assume(b.Ne(iv.Typ, b.Int(0)))
 				x.notes["package-level error variables initialised by errors.New and never reassigned are non-nil"] = true
@@ -1315,6 +1321,7 @@ func (x *Exec) globalSliceLen(g *ssa.Global) int64 {
 func (p *Program) globalMutated(g *ssa.Global) bool {
 	p.globOnce.Do(func() {
 		p.globMut = map[*ssa.Global]bool{}
+		p.globInit = map[*ssa.Global]bool{}
 		for _, f := range p.funcs {
 			isInit := f.Name() == "init" || strings.HasPrefix(f.Name(), "init#")
 			for _, blk := range f.Blocks {
@@ -1331,6 +1338,7 @@ func (p *Program) globalMutated(g *ssa.Global) bool {
 							}
 						case *ssa.Store:
 							if v.Addr == ssa.Value(gg) && isInit && f.Pkg == gg.Pkg {
+								p.globInit[gg] = true
 								continue
 							}
 						case *ssa.DebugRef:
